@@ -105,7 +105,13 @@ func operand(v ssa.Value) J {
 			case constant.Bool:
 				o["v"] = constant.BoolVal(x.Value)
 			case constant.String:
-				o["v"] = constant.StringVal(x.Value)
+				sv := constant.StringVal(x.Value)
+				o["v"] = sv
+				bs := make([]int, len(sv))
+				for i := 0; i < len(sv); i++ {
+					bs[i] = int(sv[i])
+				}
+				o["vb"] = bs // exact bytes (JSON would replace invalid UTF-8)
 			case constant.Int:
 				o["v"] = x.Value.ExactString()
 			default:
